@@ -15,9 +15,9 @@ func (p *wat2wasmWorker) findTypeIndexByIdent(ident string) wasm.Index {
 	if idx, err := strconv.Atoi(ident); err == nil {
 		return wasm.Index(idx)
 	}
-	for _, x := range p.mWat.Types {
+	for i, x := range p.mWat.Types {
 		if x.Name == ident {
-			return p.mustFindFuncTypeIndex(x.Type)
+			return wasm.Index(i)
 		}
 	}
 	panic(fmt.Sprintf("wat2wasm: unknown type %q", ident))
